@@ -16,19 +16,20 @@ Fixpoint paced (delay : Z) (e : Z) (prev : option Z) (sends : list (Z * Z)) : bo
 (** instant at which the first destination reply was processed: send time of its TTL + its RTT *)
 (** None: no destination reply; Some None: one was accepted for a TTL that was never probed (only a
     misbehaving driver does that), so its instant cannot be reconstructed from the RTT *)
-Fixpoint first_dest_time (sends : list (Z * Z)) (acc : list probe) : option (option Z) :=
+(** [rogue q]: the reply was handed over by a misbehaving driver with an RTT that is not (processing - send) *)
+Fixpoint first_dest_time (rogue : probe -> bool) (sends : list (Z * Z)) (acc : list probe) : option (option Z) :=
   match acc with
   | [] => None
   | p :: r => if p_dest p then
-                Some (match lookup sends (p_ttl p) with Some s => Some (s + p_rtt p) | None => None end)
-              else first_dest_time sends r
+                Some (if rogue p then None else match lookup sends (p_ttl p) with Some s => Some (s + p_rtt p) | None => None end)
+              else first_dest_time rogue sends r
   end.
 
-Definition sends_okb (p : tparams) (sends : list (Z * Z)) (acc : list probe) : bool :=
+Definition sends_okb (rogue : probe -> bool) (p : tparams) (sends : list (Z * Z)) (acc : list probe) : bool :=
   negb (match sends with [] => true | _ => false end)
   && paced (tp_delay p) (tp_first p) None sends
   && (Z.of_nat (length sends) <=? count p)
-  && match first_dest_time sends acc with
+  && match first_dest_time rogue sends acc with
      | Some (Some d) => forallb (fun x => snd x <=? d) sends   (* a send at the very instant the answer is processed was already in flight *)
      | Some None => true
      | None => Z.of_nat (length sends) =? count p      (* destination never seen: every TTL is probed *)
